@@ -128,6 +128,16 @@ for alg in ((8, 13) if TIER == "quick" else (8, 10, 13, 14)):
     sc = {"modules": [[{"id": 0, "objs": S.pair(k1["id"], k1) + S.pair(k2["id"], k2)}]], "ksks": {"k1": ceremony.ksk_def(k1), "k2": ceremony.ksk_def(k2)},
           "schema": schema, "request": rq}
     run("nine-bundles-revoke-schema", sc, {"alg": alg})
+# an EC KSK whose X coordinate starts with the octet a DER wrapper would carry as length, on tokens that return the point bare and wrapped
+for alg in (13, 14):
+    kx = ksrxml.mk_key(P.ec_x_lenlike(alg), alg=alg, flags=257, ident="Kx")
+    zx = [zsk_for(alg, idx=j) for j in range(2)]
+    for wrapped in (False, True):
+        rq = skrgen.honest_request(f"x-lenlike-{alg}-{wrapped}", NOW, 2, [[zx[0]], [zx[0], zx[1]]], ksrxml.default_zsk_policy(), sign=True)
+        sc = {"modules": [[{"id": 0, "objs": S.pair(kx["id"], kx, ec_wrapped=wrapped)}]], "ksks": {"k1": ceremony.ksk_def(kx, hash_using_hsm=R.choice([None, True]))},
+              "schema": {i: {"publish": ["k1"], "sign": ["k1"], "revoke": []} for i in (1, 2)}, "request": rq}
+        run("ec-x-starts-with-length-octet", sc, {"alg": alg, "wrapped": wrapped, "x0": hex(kx["pub"][0])})
+P.save()
 # a revoked-and-signing KSK whose REVOKE bit carries into the next half-word of the key tag sum (revoked tag = tag + 129)
 krc = ksrxml.mk_key(P.ec_revoke_carry(13), alg=13, flags=257, ident="Krc")
 k2_ = ksk_for(13, idx=1)
